@@ -10,7 +10,8 @@
    real closed field and for ALL shapes.  [mixed_loss], [proj_loss] are the same quantities
    on plain matrices (C04_loss_formula links them to the programs).                          *)
 From mathcomp Require Import all_ssreflect all_algebra.
-From Verif Require Import MExp MExpMx PCovR PCovRP PCovRProg KyFan C14Thm C04Thm PCovRExample.
+From Verif Require Import MExp MExpMx PCovR PCovRC04 PCovRP PCovRProg KyFan C14Thm C04Thm PCovRExample
+  C04ExtP C04ExtExample.
 Import GRing.Theory Num.Theory.
 Local Open Scope ring_scope.
 
@@ -178,3 +179,180 @@ Example C04_nonvacuous_limits :
               = e_Vs 2 1 e0 *m dmap (fun x => g_mk (e_tol e0) x * x) (e_S 1 e0) *m (e_Vs 2 1 e0)^T]].
 Proof. exact ex_c04_limits. Qed.
 Print Assumptions C04_nonvacuous_limits.
+
+(* =============================================================================================
+   Extension round 3: BOTH routes of fit, the losses a user observes, masked components.
+
+   own_Q n m k env sp is PCovR's own subspace of sample space as an n x k matrix: V (sample-space
+   route, sp = true) or X C^-1/2 V (feature-space route; Model/PCovRC04.v [ownq_prog] is the same
+   as a program, C04_ownq_formula).  regressor_contract is Yhat = X W (part of fit_oracle in
+   sample space, a separate hypothesis in feature space).                                     *)
+Theorem C04_ownq_formula :
+  forall (F : rcfType) (n m k : nat) (env : env_mx F) (sp : bool),
+    eval_mx env (ownq_prog n m k sp) = own_Q n m k env sp.
+Proof. exact ownq_formula. Qed.
+Print Assumptions C04_ownq_formula.
+
+Theorem C04_own_Q_meaning :
+  forall (F : rcfType) (n m k : nat) (env : env_mx F) (sp : bool),
+    own_Q n m k env sp
+    = if sp then e_Vs n k env
+      else e_X n m env *m f_A (e_tol env) (e_UC m env) (e_vC m env) *m e_Vf m k env.
+Proof. by []. Qed.
+Print Assumptions C04_own_Q_meaning.
+
+(* whichever route: an orthonormal family of eigenvectors of K~ for the returned eigenvalues *)
+Theorem C04_own_basis :
+  forall (F : rcfType) (n m p k : nat) (env : env_mx F) (sp : bool),
+    fit_oracle n m p k env sp -> regressor_contract n m p env ->
+    (forall i, e_tol env < e_S k env i 0) ->
+    (own_Q n m k env sp)^T *m own_Q n m k env sp = 1%:M
+    /\ eval_mx env (kern_prog n m p) *m own_Q n m k env sp
+       = own_Q n m k env sp *m diag_mx (e_S k env)^T.
+Proof. exact own_basis. Qed.
+Print Assumptions C04_own_basis.
+
+(* whichever route, masked components ALLOWED: inverse_transform(transform(X)) and
+   predict(T = transform(X)) are the orthogonal projections of X and Y onto the retained
+   columns of own_Q  (C04_own_subspace: sample route, every component retained) *)
+Theorem C04_own_subspace_both :
+  forall (F : rcfType) (n m p k : nat) (env : env_mx F) (sp : bool),
+    fit_oracle n m p k env sp -> regressor_contract n m p env -> centred n m env ->
+    let T := transform_prog n m p k sp (eX n m) in
+    let Q := own_Q n m k env sp in
+    eval_mx env (inverse_prog n m k sp T) = Q *m retained_mask k env *m Q^T *m e_X n m env
+    /\ eval_mx env (predict_t_prog n m p k sp T) = Q *m retained_mask k env *m Q^T *m e_Y n p env.
+Proof. exact own_subspace_both. Qed.
+Print Assumptions C04_own_subspace_both.
+
+(* optimality for the route fit actually took: in particular a FEATURE-space fit attains the
+   optimum of the mixed objective over all k-dimensional subspaces of sample space *)
+Theorem C04_optimal_both :
+  forall (F : rcfType) (n m p k : nat) (env : env_mx F) (sp : bool),
+    fit_oracle n m p k env sp -> regressor_contract n m p env ->
+    forall (U : 'M[F]_n) (L : 'cV[F]_n) (kn : (k <= n)%N) (Qc : mexp n k),
+    (forall i, e_tol env < e_S k env i 0) ->
+    U^T *m U = 1%:M -> eval_mx env (kern_prog n m p) *m U = U *m diag_mx L^T ->
+    (forall i j : 'I_n, (i <= j)%N -> L j 0 <= L i 0) ->
+    (forall i : 'I_k, e_S k env i 0 = L (widen_ord kn i) 0) ->
+    (eval_mx env Qc)^T *m eval_mx env Qc = 1%:M ->
+    (eval_mx env (loss_prog n m p k (ownq_prog n m k sp))) ord0 ord0
+    <= (eval_mx env (loss_prog n m p k Qc)) ord0 ord0.
+Proof. exact optimal_both. Qed.
+Print Assumptions C04_optimal_both.
+
+(* the training losses as the user measures them,
+     |X - inverse_transform(transform(X))|^2  and  |Y - predict(T = transform(X))|^2,
+   are the projection losses of own_Q *)
+Theorem C04_observed_losses :
+  forall (F : rcfType) (n m p k : nat) (env : env_mx F) (sp : bool),
+    fit_oracle n m p k env sp -> regressor_contract n m p env ->
+    centred n m env -> (forall i, e_tol env < e_S k env i 0) ->
+    (eval_mx env (obs_lossx_prog n m p k sp)) ord0 ord0
+      = proj_loss (own_Q n m k env sp) (e_X n m env)
+    /\ (eval_mx env (obs_lossy_prog n m p k sp)) ord0 ord0
+      = proj_loss (own_Q n m k env sp) (e_Y n p env).
+Proof. exact observed_losses. Qed.
+Print Assumptions C04_observed_losses.
+
+(* masked components allowed: the observed losses are the projection losses of the RETAINED
+   columns of own_Q (program ownq_ret = ownq_prog times the 0/1 mask of the `s > tol` guards) *)
+Theorem C04_observed_losses_masked :
+  forall (F : rcfType) (n m p k : nat) (env : env_mx F) (sp : bool),
+    fit_oracle n m p k env sp -> regressor_contract n m p env -> centred n m env ->
+    (eval_mx env (obs_lossx_prog n m p k sp)) ord0 ord0
+      = (eval_mx env (lossx_prog n m k (ownq_ret n m k sp))) ord0 ord0
+    /\ (eval_mx env (obs_lossy_prog n m p k sp)) ord0 ord0
+      = proj_loss (own_Q n m k env sp *m retained_mask k env) (e_Y n p env).
+Proof. exact observed_losses_masked. Qed.
+Print Assumptions C04_observed_losses_masked.
+
+(* predict projects Y, the objective contains Yhat: for exact least squares the two losses differ
+   by the constant |Y - Yhat|^2 (Pythagoras; the residual is orthogonal to the retained subspace) *)
+Theorem C04_observed_regression_loss :
+  forall (F : rcfType) (n m p k : nat) (env : env_mx F) (sp : bool),
+    fit_oracle n m p k env sp -> regressor_contract n m p env ->
+    centred n m env -> (forall i, e_tol env < e_S k env i 0) ->
+    (e_X n m env)^T *m (e_Y n p env - e_Yh n p env) = 0 ->
+    (eval_mx env (obs_lossy_prog n m p k sp)) ord0 ord0
+    = (eval_mx env (lossy_prog n p k (ownq_prog n m k sp))) ord0 ord0
+      + (eval_mx env (resid_ls_prog n p)) ord0 ord0.
+Proof. exact observed_regression_loss. Qed.
+Print Assumptions C04_observed_regression_loss.
+
+(* mixing = 0 by EITHER route, masked components allowed (k > rank Yhat) *)
+Theorem C04_regression_limit_both :
+  forall (F : rcfType) (n m p k : nat) (env : env_mx F) (sp : bool),
+    fit_oracle n m p k env sp -> regressor_contract n m p env ->
+    centred n m env -> e_a env = 0 ->
+    (e_X n m env)^T *m (e_Y n p env - e_Yh n p env) = 0 ->
+    eval_mx env (kern_prog n m p)
+    = own_Q n m k env sp *m dmap (fun x => g_mk (e_tol env) x * x) (e_S k env)
+      *m (own_Q n m k env sp)^T ->
+    eval_mx env (predict_x_prog n m p k sp (eX n m)) = e_Yh n p env
+    /\ eval_mx env (predict_t_prog n m p k sp (transform_prog n m p k sp (eX n m))) = e_Yh n p env.
+Proof. exact regression_limit_both. Qed.
+Print Assumptions C04_regression_limit_both.
+
+Theorem C04_full_fit_sp_meaning :
+  forall (F : rcfType) (n m p k : nat) (kn : (k <= n)%N) (sp : bool) (e : env_mx F)
+         (U : 'M[F]_n) (L : 'cV[F]_n),
+    full_fit_sp m p kn sp e U L <->
+    [/\ fit_oracle n m p k e sp /\ regressor_contract n m p e,
+        centred n m e /\ (forall i, e_tol e < e_S k e i 0),
+        U^T *m U = 1%:M /\ eval_mx e (kern_prog n m p) *m U = U *m diag_mx L^T,
+        forall i j : 'I_n, (i <= j)%N -> L j 0 <= L i 0
+      & forall i : 'I_k, e_S k e i 0 = L (widen_ord kn i) 0].
+Proof. by []. Qed.
+Print Assumptions C04_full_fit_sp_meaning.
+
+(* "Consequently ... the training reconstruction loss of X is non-increasing and the training
+   regression loss non-decreasing as mixing goes from 0 to 1" - on the OBSERVED losses, for two
+   fits of the same data by ANY combination of routes *)
+Theorem C04_monotone_observed_x :
+  forall (F : rcfType) (n m p k : nat) (ea eb : env_mx F) (spa spb : bool)
+         (Ua Ub : 'M[F]_n) (La Lb : 'cV[F]_n) (kn : (k <= n)%N),
+    e_X n m ea = e_X n m eb -> e_Yh n p ea = e_Yh n p eb ->
+    0 <= e_a ea -> e_a ea < e_a eb -> e_a eb <= 1 ->
+    full_fit_sp m p kn spa ea Ua La -> full_fit_sp m p kn spb eb Ub Lb ->
+    (eval_mx eb (obs_lossx_prog n m p k spb)) ord0 ord0
+    <= (eval_mx ea (obs_lossx_prog n m p k spa)) ord0 ord0.
+Proof. exact monotone_observed_x. Qed.
+Print Assumptions C04_monotone_observed_x.
+
+Theorem C04_monotone_observed_y :
+  forall (F : rcfType) (n m p k : nat) (ea eb : env_mx F) (spa spb : bool)
+         (Ua Ub : 'M[F]_n) (La Lb : 'cV[F]_n) (kn : (k <= n)%N),
+    e_X n m ea = e_X n m eb -> e_Y n p ea = e_Y n p eb -> e_Yh n p ea = e_Yh n p eb ->
+    0 <= e_a ea -> e_a ea < e_a eb -> e_a eb <= 1 ->
+    full_fit_sp m p kn spa ea Ua La -> full_fit_sp m p kn spb eb Ub Lb ->
+    (e_X n m ea)^T *m (e_Y n p ea - e_Yh n p ea) = 0 ->
+    (eval_mx ea (obs_lossy_prog n m p k spa)) ord0 ord0
+    <= (eval_mx eb (obs_lossy_prog n m p k spb)) ord0 ord0.
+Proof. exact monotone_observed_y. Qed.
+Print Assumptions C04_monotone_observed_y.
+
+(* ---- non-vacuity: a sample-space fit at mixing 1/3 and a feature-space fit at 2/3 of the same
+   data meet every hypothesis of the two monotonicity theorems (and hence of C04_own_basis,
+   C04_optimal_both, C04_observed_losses), and the feature-space regression limit has an instance *)
+Example C04_nonvacuous_both_routes :
+  forall F : rcfType,
+    exists (ea eb : env_mx F) (U : 'M[F]_2) (L : 'cV[F]_2),
+      [/\ [/\ e_X 2 1 ea = e_X 2 1 eb, e_Y 2 1 ea = e_Y 2 1 eb & e_Yh 2 1 ea = e_Yh 2 1 eb],
+          [/\ 0 <= e_a ea, e_a ea < e_a eb & e_a eb <= 1],
+          full_fit_sp 1 1 (isT : (1 <= 2)%N) true ea U L,
+          full_fit_sp 1 1 (isT : (1 <= 2)%N) false eb U L
+        & (e_X 2 1 ea)^T *m (e_Y 2 1 ea - e_Yh 2 1 ea) = 0].
+Proof. exact ex_c04_ext. Qed.
+Print Assumptions C04_nonvacuous_both_routes.
+
+Example C04_nonvacuous_regression_limit_feature :
+  forall F : rcfType,
+    exists e0 : env_mx F,
+      [/\ e_a e0 = 0, fit_oracle 2 1 1 1 e0 false /\ regressor_contract 2 1 1 e0, centred 2 1 e0,
+          (e_X 2 1 e0)^T *m (e_Y 2 1 e0 - e_Yh 2 1 e0) = 0
+        & eval_mx e0 (kern_prog 2 1 1)
+          = own_Q 2 1 1 e0 false *m dmap (fun x => g_mk (e_tol e0) x * x) (e_S 1 e0)
+            *m (own_Q 2 1 1 e0 false)^T].
+Proof. exact ex_c04_reglimit_feature. Qed.
+Print Assumptions C04_nonvacuous_regression_limit_feature.
